@@ -10,6 +10,7 @@ import (
 
 	"verif/internal/choice"
 	"verif/internal/detsched"
+	"verif/internal/gen"
 	"verif/internal/meshsnap"
 	"verif/internal/sim"
 )
@@ -62,6 +63,8 @@ func meshes(pool []*slot) []modeling.Mesh {
 
 func (Sequential) Run(c choice.Chooser, opt sim.Options) (res sim.Result) {
 	res = sim.Result{}
+	gen.Wild = true
+	defer func() { gen.Wild = false }()
 	var hist []string
 	unsupported := map[string]bool{}
 	counts := map[string]int{}
@@ -222,6 +225,8 @@ func (Concurrent) NeedsRace() bool { return true }
 
 func (Concurrent) Run(c choice.Chooser, opt sim.Options) (res sim.Result) {
 	res = sim.Result{Evals: 1}
+	gen.Wild = true
+	defer func() { gen.Wild = false }()
 	unsupported := map[string]bool{}
 	counts := map[string]int{}
 	var hist []string
